@@ -84,6 +84,11 @@ CHECKS.update({
    text="26 must-be-ignored packet kinds (bad lengths, SACK beyond what was sent, impossible gap blocks, stale forward-TSN, unknown and misplaced chunks, duplicate/out-of-window/empty DATA, bad checksums, raw bytes) and 8 forgery kinds are built relative to the victim's live state and injected at generated instants; after every packet the in-flight, receive and reassembly structures must be mutually consistent and cumulative points monotone; when only must-ignore packets were injected (and no ABORT was sent) every message written before and after is delivered exactly. Panics and hangs are caught at process level with the scenario saved beforehand.",
    note="Handshake chunks count as 'misplaced' only while the victim is established; the library does not check verification tags, so a well-formed handshake chunk during the handshake is a forgery, not an ignorable packet. Per-packet processing time is bounded by the watchdog, not measured.", ref="6/C03"),
 })
+CHECKS.update({
+ "C20": dict(level="exploration", technique="property-based testing (rapid) of generated concurrent API programs (4-16 goroutines + teardown calls) against two live associations in the simulation, built with the Go race detector and real parallelism (GOMAXPROCS=4 per shard)",
+   text="Generated programs call writes on shared and private streams, reads, deadline and reliability changes, buffered-amount queries and re-entrant callbacks, heartbeats, stream open/close, getters and finally Shutdown/Close/Abort concurrently while traffic, faults and timers are active; any race-detector report, lock deadlock (watchdog), call that never returns or leftover goroutine is a violation, and data written before teardown by concurrent writers must be delivered exactly once in each writer's order.",
+   note="Schedule coverage is whatever the Go scheduler and the race detector's happens-before analysis give; failures may not reproduce from the saved scenario (it is replayed 3 times). Race reports are attributed to the library only if a non-harness pion/sctp frame is on top of one of the two stacks.", ref="6/C20"),
+})
 NOT_YET = {}
 props = [json.loads(l) for l in open(os.path.join(V, "properties.jsonl"))]
 checks = []
